@@ -878,6 +878,19 @@ func (r *multiCIDRRangeAllocator) updateCIDRsAllocation(logger klog.Logger, data
 				ambiguous = true
 			}
 		}
+		if ambiguous {
+			// Find out from the API server whether one of the timed out writes went through.
+			current, getErr := r.client.CoreV1().Nodes().Get(context.TODO(), node.Name, metav1.GetOptions{})
+			switch {
+			case getErr == nil && equalStrings(current.Spec.PodCIDRs, cidrsString):
+				data.clusterCIDR.AssociatedNodes[node.Name] = true
+				logger.Info("Set node PodCIDR (write was applied although it timed out)", "node", klog.KObj(node), "podCIDR", cidrsString)
+				return nil
+			case getErr == nil || apierrors.IsNotFound(getErr):
+				// The node does not have the CIDRs: the reservation can be given back.
+				ambiguous = false
+			}
+		}
 		// failed release back to the pool.
 		logger.Error(err, "Failed to update node PodCIDR after attempts", "node", klog.KObj(node), "podCIDR", cidrsString, "retries", cidrUpdateRetries)
 		controllerutil.RecordNodeStatusChange(logger, r.recorder, node, "CIDRAssignmentFailed")
@@ -1559,6 +1572,19 @@ func nodeSelectorAsSelector(ns *corev1.NodeSelector) (labels.Selector, error) {
 	selector := labels.NewSelector()
 	selector = selector.Add(requirements...)
 	return selector, nil
+}
+
+// equalStrings reports whether the two slices hold the same strings in the same order.
+func equalStrings(a, b []string) bool {
+	if len(a) != len(b) {
+		return false
+	}
+	for i := range a {
+		if a[i] != b[i] {
+			return false
+		}
+	}
+	return true
 }
 
 // ipnetToStringList converts a slice of net.IPNet into a list of CIDR in string format.
